@@ -11,7 +11,7 @@
    replace_all with '$0' returns the input unchanged (through the expansion loop and the
    simple-replacement latch), given that group 0 of a reported match is the reported span.
    Partial: the interface facts of the matcher are hypotheses outside the engine fragment. *)
-From RX Require Import Base.Prelude Model.Engine Model.Matcher Model.Api Model.Run Proofs.ScanFacts Proofs.AnalyzeFacts Proofs.AnalyzeIterFacts Spec.Repl Proofs.ReplaceFacts Model.Op Proofs.EngineFacts Proofs.FrameFacts Proofs.FragmentApi Spec.Syntax Spec.Parse Model.Compiler Proofs.PlainPattern Proofs.PlainSpec.
+From RX Require Import Base.Prelude Model.Engine Model.Matcher Model.Api Model.Run Proofs.ScanFacts Proofs.AnalyzeFacts Proofs.AnalyzeIterFacts Spec.Repl Proofs.ReplaceFacts Model.Op Proofs.EngineFacts Proofs.FrameFacts Proofs.FragmentApi Spec.Syntax Spec.Parse Model.Compiler Proofs.PlainPattern Proofs.PlainSpec Spec.Syntax Spec.Sem Spec.Parse Model.Compiler Proofs.ScanFacts Proofs.GroupGrammar Proofs.GroupSpec Proofs.GroupScan.
 
 Theorem C04_tokenize_pieces_partial :
   forall matchf input, good_step matchf input ->
@@ -93,6 +93,23 @@ Theorem C04_ordinary_pattern_end_to_end :
     end.
 Proof. exact ordinary_tokenize_analyze_end_to_end. Qed.
 
+(* tokenize from the strings on the grammar of Proofs/GroupGrammar.v: the tokens are the pieces of
+   the input between the specification's spans *)
+Theorem C04_group_grammar_tokens :
+  forall xpath a fls input,
+    ok_a xpath a = true -> existsb (N.eqb 59) fls = false -> (N.of_nat (length input) < umax)%N ->
+    match spec_flags xpath fls with
+    | Valid sf =>
+        s_q sf = false -> s_x sf = false ->
+        exists re r, regex_new true xpath (show_a a) fls = Ok re /\ spec_parse xpath (show_a a) = Valid r
+          /\ (r_nullable re = false ->
+              scan (matches (r_prog re) input) input (length input + 2) 0 st0 = map span_of (spec_spans sf input r)
+              /\ tok_all (matches (r_prog re) input) input (S (S (S (length input)))) {| t_prev := Some 0; t_ms := st0 |}
+                 = Ok (pieces input (map span_of (spec_spans sf input r)) 0))
+    | _ => True
+    end.
+Proof. exact grammar_tokens_are_spec_pieces. Qed.
+
 Print Assumptions C04_tokenize_pieces_partial.
 Print Assumptions C04_replace_joins_pieces_partial.
 Print Assumptions C04_analyze_texts_partial.
@@ -100,3 +117,4 @@ Print Assumptions C04_analyze_iterator_partial.
 Print Assumptions C04_replace_dollar0_identity_partial.
 Print Assumptions C04_fragment_tokenize_pieces.
 Print Assumptions C04_ordinary_pattern_end_to_end.
+Print Assumptions C04_group_grammar_tokens.
